@@ -74,7 +74,8 @@ Lemma sigs_nonvacuous :
                    "Iter::next"; "Iter::next_back"; "Keys::next"; "Values::next"] = true.
 Proof. vm_compute; reflexivity. Qed.
 
-(* (iii) the call graph names only functions it contains *)
-Lemma fns_closed : graph_closed fns = true.
+(* (iii) the call graph names only functions it contains (the source half of clone names drops-only
+   twins "<f>@drops", GenDefs.v: they are part of the graph the theorems of Gen/C19Static.v use) *)
+Lemma fns_closed : graph_closed (with_drops_view fns) = true.
 Proof. vm_compute; reflexivity. Qed.
 
